@@ -50,6 +50,29 @@ theorem exactly_once_resumed_current (limit : Nat) (acts : List Act) (x : Item) 
         (gotAll s.log).countP (fun d => d.2 == x) + s.dropped.countP (fun d => d.2 == x) :=
   exactly_once_resumed cfg (by decide) (by decide) limit acts x
 
+/-- supervisor events are mode-2 pushes (`giveNB`), ev/give-supervisor is a give, mode 2 never parks -/
+theorem supervisor_shape :
+    Gen.Thread.supervisorEventIsMode2Push = true ∧ Gen.Thread.giveSupervisorIsGive = true ∧ Gen.Thread.mode2NeverParks = true := by
+  decide
+
+open JanetModel.Thread.Spawn in
+/-- cfun_ev_thread and janet_go_thread_subr follow the same plan; `main` and `value` are unconditional; both sides use
+    JANET_MARSHAL_UNSAFE and the same flag word; the buffer goes to exactly one thread and is freed once -/
+theorem thread_plans_agree :
+    Gen.Thread.threadWritePlan = Gen.Thread.threadReadPlan ∧
+    (⟨true, 0, true, .main⟩ : PStep) ∈ Gen.Thread.threadWritePlan ∧ (⟨true, 0, true, .value⟩ : PStep) ∈ Gen.Thread.threadWritePlan ∧
+    Gen.Thread.threadArgsUnsafeBothSides = true ∧ Gen.Thread.threadFlagsInTag = true ∧
+    Gen.Thread.threadBufferOneThreadFreedOnce = true ∧ Gen.Thread.threadSchedulesMainWithValue = true := by
+  decide
+
+open JanetModel.Thread.Spawn in
+/-- for the plans of the current source: whatever the flags, the new thread reads back exactly the buffer written for it -/
+theorem thread_args_roundtrip_current (flags : Nat) (a : Args) :
+    readBuf Gen.Thread.threadReadPlan flags (writeBuf Gen.Thread.threadWritePlan flags a) =
+      some (writeBuf Gen.Thread.threadWritePlan flags a, []) := by
+  rw [← thread_plans_agree.1]
+  exact thread_args_roundtrip _ flags a
+
 theorem thread_returns_after_body_current (n : Nat) (acts : List TAct) :
     let s := trun tcfg acts { bodyLeft := n }
     (s.callerResumed = true → s.bodyDone = true) ∧ s.resumedAfterBody = true :=
